@@ -46,6 +46,14 @@ def gen_case(rng, ctx, kinds: List[str], allow_tf=True, allow_fill=True, allow_h
     if regimes is None and spec["kind"] in ("VWMA", "VWAP", "OBV") and rng.random() < 0.5:
         regime = rng.choice(["zero_vol", "flat", "mixed"])      # runs of zero-volume candles
     rows = X.gen_rows(rng, n, regime, step=step, ts_mode=ts_mode)
+    if spec["kind"] == "AMORPH" and base and n >= 12:
+        from . import analysis as A_
+        f_ = spec["analysis"]["f"]
+        if f_ in A_.PATTERNS:
+            # random candles almost never form a pattern: place its shape once inside the warm-up
+            # (where the answer stays False) and once behind it
+            A_.plant(rows, rng.randrange(2, 9), f_, early=True)
+            A_.plant(rows, rng.randrange(10, n), f_)
     if cfg.get("fill") and rows:
         # keep the number of fill candles small
         tfs = gen.UNITS[cfg["tf"][0]] * int(cfg["tf"][1:])
@@ -81,6 +89,24 @@ def gen_pattern_tf_case(rng, ctx) -> Dict:
         i += m
     return {"spec": spec, "cfg": cfg, "rows": rows, "init": rows[:init_n], "chunks": chunks,
             "meta": {"kind": "AMORPH", "n": n, "step": step, "ts_mode": "regular", "cfg": cfg}}
+
+
+def gen_pattern_base_case(rng, ctx, k: int = 0) -> Dict:
+    """A candle-pattern wrapper on the base timeframe over a stream in which the pattern's shape was
+    placed inside the warm-up (index < 10, where the reading stays False whatever follows) and behind
+    it; the four patterns take turns."""
+    from . import analysis as A
+    f = A.PATTERNS[k % len(A.PATTERNS)]
+    n = rng.randint(13, 40)
+    spec = {"kind": "AMORPH", "kw": {}, "analysis": {"f": f, "lookback": rng.choice([None, None, 2, 5])}, "round_value": 4}
+    rows = X.gen_rows(rng, n, rng.choice(["walk", "mixed", "eqclose"]), step=60, ts_mode="regular")
+    for r in rows:
+        r["inds"] = {}
+    A.plant(rows, rng.randrange(2, 9), f, early=True)
+    A.plant(rows, rng.randrange(10, n), f)
+    init, chunks = gen.gen_chunks(rng, rows)
+    return {"spec": spec, "cfg": {}, "rows": rows, "init": init, "chunks": chunks,
+            "meta": {"kind": "AMORPH", "n": n, "step": 60, "ts_mode": "regular", "cfg": {}}}
 
 
 def snapshot(ind) -> List[Dict]:
